@@ -525,6 +525,12 @@ pub fn set_fail_fd_at(i: i32) {
 pub fn set_block_is_violation(b: bool) {
     unsafe { S.block_is_violation = b }
 }
+/// make the kernel's "lowest free descriptor" be `n` for the next creation (n in 0..=2)
+pub fn next_fd_is(n: c_int) {
+    unsafe {
+        libc::syscall(libc::SYS_close, n);
+    }
+}
 pub fn set_cur(p: u8) {
     unsafe { S.cur = p }
 }
